@@ -18,6 +18,8 @@
     order, never sorted) leave the loop only when the list is exhausted or with a match; an early
     `break`/fall-out that rejoins the not-found continuation skips later entries, so a range listed
     after a higher one (legal: bfrange entries need not be sorted) becomes unreachable.
+ R8 destinations are UTF-16: the builder's text-to-bytes helpers never narrow a `char` to `u16`/`u8` by a cast (that keeps only the low
+    bits: U+1F600 would be written <F600>); code units come from `encode_utf16`.
 Not decided: the mapped values themselves.
 """
 from .. import lib as L
@@ -143,9 +145,33 @@ def check_complete_search(ctx, rule):
     ctx.floor(rule, "mapping-list scans in CMap lookups", n, 2)
 
 
+def check_no_char_narrowing(ctx, rule):
+    facts = ctx.facts
+    n = 0
+    bad = 0
+    for k, fn in sorted(facts.fns.items()):
+        if not k.startswith(M) or "::tests::" in k:
+            continue
+        for b, blk in enumerate(fn.blocks):
+            for st in blk[0]:
+                rv = st[2]
+                if rv[0] == "cast" and rv[4] == "char" and rv[3] in ("u16", "u8", "i16"):
+                    bad += 1
+                    ctx.violation(rule, "char-narrowed:%s" % L.short(fn.parent or fn.id), "%s casts a `char` to `%s`: only the low bits of the "
+                                  "code point survive, so a character above U+FFFF is written to the CMap as a different BMP character "
+                                  "(U+1F600 -> <F600>) instead of its UTF-16 surrogate pair" % (L.short(fn.parent or fn.id), rv[3]), fn.where(b))
+        for b, c, a, d, t, u in fn.calls():
+            if isinstance(c, dict) and L.short(c.get("p") or "") == "encode_utf16":
+                n += 1
+    if not bad:
+        ctx.ok(rule, "cmap:utf16-by-encode_utf16", "%d encode_utf16 call(s), no narrowing cast of a char" % n)
+    ctx.floor(rule, "encode_utf16 calls in text::cmap", n, 1)
+
+
 def run(ctx):
     facts = ctx.facts
     check_range_length_gate(ctx, "R6")
+    check_no_char_narrowing(ctx, "R8")
     check_complete_search(ctx, "R7")
     bld = ctx.fn(M + "ToUnicodeCMapBuilder::build", "anchor")
     prs = ctx.fn(M + "CMap::parse", "anchor")
